@@ -230,6 +230,9 @@ func (e *env) build(v *Val) interface{} {
 			r[fmt.Sprintf("k%d", i)] = e.build(&v.V[i])
 		}
 		return r
+	case "kmap":
+		// a map whose (single) key is the child value
+		return map[interface{}]interface{}{e.build(child(v)): 1}
 	case "struct", "pstruct":
 		s := simStruct{A: int(v.I), B: string(v.S)}
 		if len(v.V) > 0 {
